@@ -83,6 +83,19 @@ pub struct PairModel {
     pub max_depth: usize,
 }
 
+thread_local! {
+    static NREQ: Cell<u8> = const { Cell::new(0) };
+}
+struct NreqCell;
+impl NreqCell {
+    fn set(&self, v: u8) {
+        NREQ.with(|c| c.set(v));
+    }
+    fn get(&self) -> u8 {
+        NREQ.with(|c| c.get())
+    }
+}
+
 struct Slot<const M: usize> {
     w: Option<World<M>>,
     trace: Hasher128,
@@ -90,8 +103,10 @@ struct Slot<const M: usize> {
 }
 
 impl PairModel {
+    #[allow(non_upper_case_globals)]
+    const nreq_dummy: () = ();
     /// Execute `acts` (already filtered or not); returns per-arena trace hashes and the worlds.
-    fn exec<const M: usize>(&self, envp: *mut ExecEnv, acts: &[PAct], judge_last: bool, viol: &mut Vec<Violation>, na: usize, collect_enabled: Option<&mut Vec<PAct>>) -> ([u64; NA], u128) {
+    fn exec<const M: usize>(&self, envp: *mut ExecEnv, steps: &[crate::mc::Step<PAct>], judge_last: bool, viol: &mut Vec<Violation>, na: usize, collect_enabled: Option<&mut Vec<PAct>>) -> ([u64; NA], u128) {
         unsafe { (*envp).begin_execution() };
         if crate::util::static_dirty() {
             crate::util::restore_static();
@@ -99,8 +114,12 @@ impl PairModel {
         let _ = take_stores();
         crate::util::drops_clear();
         let mut slots: Vec<Slot<M>> = (0..NA).map(|_| Slot { w: None, trace: Hasher128::new(), steps: 0 }).collect();
-        let n = acts.len();
-        for (i, act) in acts.iter().enumerate() {
+        let n = steps.len();
+        let mut nreq_last = 0u8;
+        for (i, st) in steps.iter().enumerate() {
+            let act = &st.act;
+            let (sc, sn) = st.script();
+            let script = &sc[..sn];
             let who = act.who();
             let judge = judge_last && i + 1 == n;
             // the other arenas before
@@ -147,8 +166,8 @@ impl PairModel {
                         w.step = step;
                         w.cov = 0;
                         match *act {
-                            PAct::Layout { size, al, .. } => w.do_layout(true, size, al, &[], false),
-                            PAct::Alloc64 { .. } => w.do_typed(TM::Alloc, Ty::U64, &[], false),
+                            PAct::Layout { size, al, .. } => w.do_layout(true, size, al, script, false),
+                            PAct::Alloc64 { .. } => w.do_typed(TM::TryAlloc, Ty::U64, script, false),
                             PAct::Reset { .. } => w.do_reset(false),
                             PAct::SetLimit { some, val, .. } => w.do_set_limit(some, val),
                             PAct::Dealloc { .. } => w.do_dealloc(0),
@@ -187,6 +206,9 @@ impl PairModel {
                             w.fill(j);
                         }
                         oc = w.outcome;
+                        if i + 1 == n {
+                            nreq_last = w.nreq_last;
+                        }
                     }
                 }
             }
@@ -331,21 +353,23 @@ impl PairModel {
         for j in 0..NA {
             t[j] = slots[j].trace.finish64();
         }
+        NreqCell.set(nreq_last);
         (t, kh.finish())
     }
 
     fn run_m<const M: usize>(&self, w: &mut Worker, h: &Hist<PCfg, PAct>, want_enabled: bool) -> RunOut<PAct> {
         let envp: *mut ExecEnv = &mut *w.env;
         let acts: Vec<PAct> = h.steps().iter().map(|s| s.act).collect();
+        let steps: Vec<crate::mc::Step<PAct>> = h.steps().to_vec();
         let na = h.cfg.arenas as usize;
         let mut viol = Vec::new();
         let mut enabled = Vec::new();
-        let (t, key) = self.exec::<M>(envp, &acts, true, &mut viol, na, if want_enabled { Some(&mut enabled) } else { None });
-        let mut out = RunOut { key, enabled, nreq_last: 0, terminal: false, violations: Vec::new(), cov: 0, outcome: t[0] ^ t[1].rotate_left(7) ^ t[2].rotate_left(13) };
+        let (t, key) = self.exec::<M>(envp, &steps, true, &mut viol, na, if want_enabled { Some(&mut enabled) } else { None });
+        let mut out = RunOut { key, enabled, nreq_last: NreqCell.get(), terminal: false, violations: Vec::new(), cov: 0, outcome: t[0] ^ t[1].rotate_left(7) ^ t[2].rotate_left(13) };
         // differential: the acting arena's trace equals the trace of its own sub-history run alone
         if let Some(last) = acts.last() {
             let who = last.who();
-            let solo: Vec<PAct> = acts.iter().copied().filter(|a| a.who() == who).collect();
+            let solo: Vec<crate::mc::Step<PAct>> = steps.iter().copied().filter(|s| s.act.who() == who).collect();
             if solo.len() != acts.len() {
                 let mut dummy = Vec::new();
                 let (ts, _) = self.exec::<M>(envp, &solo, true, &mut dummy, na, None);
@@ -381,13 +405,123 @@ impl Model for PairModel {
         &[]
     }
     fn alt_answers(&self) -> Vec<Answer> {
-        vec![]
+        vec![Answer::Refuse]
     }
     fn describe(&self, h: &Hist<PCfg, PAct>) -> serde_json::Value {
-        let steps: Vec<String> = h.steps().iter().map(|s| format!("{:?}", s.act)).collect();
+        let steps: Vec<String> = h.steps().iter().map(|s| if s.ndev == 0 { format!("{:?}", s.act) } else { format!("{:?} with the global allocator refusing request #{} of this operation", s.act, s.devs[0].0) }).collect();
         serde_json::json!({"min_align": h.cfg.m, "arenas": h.cfg.arenas, "steps": steps})
     }
 }
 
 #[allow(dead_code)]
 fn _u(_: Act) {}
+
+// ------------------------------------------------------------------------------------------
+// Fresh-process isolation differential: process-wide state (statics) cannot be reset between
+// executions inside one process, so "arena B's behaviour depends only on its own history" is also
+// checked across processes: child process i first runs prefix history P[i] on some arena (including
+// allocator refusals), then every B-history Q[j]; its trace vector must equal the one of a child
+// that ran no prefix at all.
+// ------------------------------------------------------------------------------------------
+
+fn all_histories(alphabet: &dyn Fn(&[crate::mc::Step<PAct>]) -> Vec<crate::mc::Step<PAct>>, depth: usize) -> Vec<Vec<crate::mc::Step<PAct>>> {
+    let mut out: Vec<Vec<crate::mc::Step<PAct>>> = vec![vec![]];
+    let mut frontier: Vec<Vec<crate::mc::Step<PAct>>> = vec![vec![]];
+    for _ in 0..depth {
+        let mut next = Vec::new();
+        for h in &frontier {
+            for s in alphabet(h) {
+                let mut h2 = h.clone();
+                h2.push(s);
+                next.push(h2);
+            }
+        }
+        out.extend(next.iter().cloned());
+        frontier = next;
+    }
+    out
+}
+
+fn created(h: &[crate::mc::Step<PAct>]) -> bool {
+    let mut c = false;
+    for s in h {
+        match s.act {
+            PAct::Create { .. } => c = true,
+            PAct::Drop { .. } => c = false,
+            _ => {}
+        }
+    }
+    c
+}
+
+pub fn prefix_histories(thorough: bool) -> Vec<Vec<crate::mc::Step<PAct>>> {
+    use crate::mc::Step;
+    let alpha = |h: &[Step<PAct>]| -> Vec<Step<PAct>> {
+        let who = 0u8;
+        if !created(h) {
+            return vec![Step::new(PAct::Create { who, cap: 0 }), Step::new(PAct::Create { who, cap: 1 })];
+        }
+        let mut v = vec![
+            Step::new(PAct::Layout { who, size: 0, al: 0 }),
+            Step::new(PAct::Layout { who, size: 8, al: 0 }),
+            Step::new(PAct::Layout { who, size: 449, al: 0 }),
+            Step::new(PAct::Layout { who, size: 449, al: 0 }).with_dev(0, Answer::Refuse),
+            Step::new(PAct::Layout { who, size: 8, al: 0 }).with_dev(0, Answer::Refuse),
+            Step::new(PAct::Layout { who, size: 5000, al: 0 }).with_dev(0, Answer::Refuse),
+            Step::new(PAct::Layout { who, size: 70_000, al: 6 }).with_dev(0, Answer::Refuse),
+            Step::new(PAct::Reset { who }),
+            Step::new(PAct::SetLimit { who, some: true, val: 100 }),
+            Step::new(PAct::Drop { who }),
+            Step::new(PAct::TryWithNever { who, fallible: false }),
+        ];
+        if thorough {
+            v.push(Step::new(PAct::Layout { who, size: 70_000, al: 0 }));
+            v.push(Step::new(PAct::Dealloc { who }));
+        }
+        v
+    };
+    all_histories(&alpha, if thorough { 4 } else { 3 })
+}
+
+pub fn probe_histories(thorough: bool) -> Vec<Vec<crate::mc::Step<PAct>>> {
+    use crate::mc::Step;
+    let alpha = |h: &[Step<PAct>]| -> Vec<Step<PAct>> {
+        let who = 1u8;
+        if !created(h) {
+            return vec![Step::new(PAct::Create { who, cap: 0 }), Step::new(PAct::Create { who, cap: 1 })];
+        }
+        vec![
+            Step::new(PAct::Layout { who, size: 0, al: 0 }),
+            Step::new(PAct::Layout { who, size: 8, al: 0 }),
+            Step::new(PAct::Layout { who, size: 449, al: 0 }),
+            Step::new(PAct::Layout { who, size: 2000, al: 0 }),
+            Step::new(PAct::Layout { who, size: 70_000, al: 0 }),
+            Step::new(PAct::Reset { who }),
+        ]
+    };
+    all_histories(&alpha, if thorough { 5 } else { 4 })
+}
+
+impl PairModel {
+    /// Child: run prefix `pi` (or none) then every probe history; print the trace vector.
+    pub fn isolation_child(&self, envp: *mut ExecEnv, m: u8, pi: i64) -> Vec<u64> {
+        let prefixes = prefix_histories(self.thorough);
+        let probes = probe_histories(self.thorough);
+        let mut dummy = Vec::new();
+        let run = |steps: &[crate::mc::Step<PAct>], dummy: &mut Vec<Violation>| -> [u64; NA] {
+            match m {
+                1 => self.exec::<1>(envp, steps, false, dummy, 2, None).0,
+                8 => self.exec::<8>(envp, steps, false, dummy, 2, None).0,
+                _ => self.exec::<16>(envp, steps, false, dummy, 2, None).0,
+            }
+        };
+        if pi >= 0 {
+            let _ = run(&prefixes[pi as usize], &mut dummy);
+        }
+        probes.iter().map(|q| run(q, &mut dummy)[1]).collect()
+    }
+}
+
+pub fn describe_steps(steps: &[crate::mc::Step<PAct>]) -> Vec<String> {
+    steps.iter().map(|s| if s.ndev == 0 { format!("{:?}", s.act) } else { format!("{:?} with the global allocator refusing request #{} of this operation", s.act, s.devs[0].0) }).collect()
+}
